@@ -802,3 +802,68 @@ Proof.
   - destruct (b_delta b); [|reflexivity]. apply forallb_forall. intros o H. apply in_flat_map in H. destruct H as (n & _ & H).
     cbn in H. repeat (destruct H as [H|H]; [subst o; reflexivity|]). contradiction.
 Qed.
+
+(** ---- the sequential write phase completes every temp file (so [ff_run] is inhabited for EVERY build) *)
+Lemma apply_write_shard f s :
+  forall x, apply_ops (write_shard s) f x = if name_eqb x (TmpShard s) then Some (Data GNew) else f x.
+Proof.
+  intro x. unfold write_shard. cbn [apply_ops fold_left apply_op].
+  repeat (rewrite upd_same; cbv iota).
+  destruct (name_eqb x (TmpShard s)) eqn:E.
+  - apply name_eqb_eq in E. subst. apply upd_same.
+  - apply name_eqb_neq in E. rewrite !upd_other by exact E. reflexivity.
+Qed.
+Lemma apply_write_meta f s :
+  forall x, apply_ops (write_meta s) f x = if name_eqb x (TmpMeta s) then Some (Data GNew) else f x.
+Proof.
+  intro x. unfold write_meta. cbn [apply_ops fold_left apply_op].
+  repeat (rewrite upd_same; cbv iota).
+  destruct (name_eqb x (TmpMeta s)) eqn:E.
+  - apply name_eqb_eq in E. subst. apply upd_same.
+  - apply name_eqb_neq in E. rewrite !upd_other by exact E. reflexivity.
+Qed.
+
+Lemma apply_write_shards l : forall f x,
+  apply_ops (flat_map (fun n => write_shard (SReg n)) l) f x =
+  if existsb (fun n => name_eqb x (TmpShard (SReg n))) l then Some (Data GNew) else f x.
+Proof.
+  induction l as [|n l IH]; intros f x; [reflexivity|].
+  cbn [flat_map existsb]. rewrite apply_ops_app, IH, apply_write_shard.
+  destruct (name_eqb x (TmpShard (SReg n))); cbn [orb]; [destruct (existsb _ l); reflexivity | reflexivity].
+Qed.
+Lemma apply_write_metas l : forall f x,
+  apply_ops (flat_map (fun n => write_meta (SReg n)) l) f x =
+  if existsb (fun n => name_eqb x (TmpMeta (SReg n))) l then Some (Data GNew) else f x.
+Proof.
+  induction l as [|n l IH]; intros f x; [reflexivity|].
+  cbn [flat_map existsb]. rewrite apply_ops_app, IH, apply_write_meta.
+  destruct (name_eqb x (TmpMeta (SReg n))); cbn [orb]; [destruct (existsb _ l); reflexivity | reflexivity].
+Qed.
+
+Lemma write_phase_ready b : tmps_ready b (apply_ops (write_phase b) (fs0 b)).
+Proof.
+  intros a Ha. unfold write_phase. rewrite apply_ops_app.
+  unfold artifacts in Ha. apply in_app_or in Ha. destruct Ha as [Ha|Ha].
+  - apply in_map_iff in Ha. destruct Ha as (n & E & Hn). subst a. cbn [tmp_of].
+    assert (Hs : apply_ops (flat_map (fun n0 => write_shard (SReg n0)) (seq (first_new b) (b_nnew b))) (fs0 b) (TmpShard (SReg n)) = Some (Data GNew)).
+    { rewrite apply_write_shards.
+      assert (E : existsb (fun n0 => name_eqb (TmpShard (SReg n)) (TmpShard (SReg n0))) (seq (first_new b) (b_nnew b)) = true).
+      { apply existsb_exists. exists n. split; [exact Hn | apply name_eqb_refl]. }
+      rewrite E. reflexivity. }
+    destruct (b_delta b); [|exact Hs].
+    rewrite apply_write_metas.
+    assert (E : existsb (fun n0 => name_eqb (TmpShard (SReg n)) (TmpMeta (SReg n0))) (seq 0 (b_nold b)) = false).
+    { destruct (existsb _ _) eqn:E; [|reflexivity]. apply existsb_exists in E. destruct E as (m & _ & E). discriminate. }
+    rewrite E. exact Hs.
+  - destruct (b_delta b); [|contradiction]. apply in_map_iff in Ha. destruct Ha as (n & E & Hn). subst a. cbn [tmp_of].
+    rewrite apply_write_metas.
+    assert (E : existsb (fun n0 => name_eqb (TmpMeta (SReg n)) (TmpMeta (SReg n0))) (seq 0 (b_nold b)) = true).
+    { apply existsb_exists. exists n. split; [exact Hn | apply name_eqb_refl]. }
+    rewrite E. reflexivity.
+Qed.
+
+Lemma sequential_build_is_ff_run b :
+  ff_run b (write_phase b) (artifacts b) (todel_after b (artifacts b) nofault).
+Proof.
+  constructor; [apply write_phase_tmp_only | apply write_phase_ready | apply Permutation_refl | apply Permutation_refl].
+Qed.
